@@ -343,7 +343,8 @@ def r12(ctx):
         ctx.ok("_detail.logging:reads-record.msg", f"no reader of record.msg ({len(formatted)} getMessage() calls): lazy arguments are formatted")
         ctx.floor(1)
         return
-    levels = {"debug": 1, "info": 1, "warning": 1, "warn": 1, "error": 1, "critical": 1, "exception": 1, "log": 2}
+    # debug / info lines are not what the property is about (a lazily formatted debug line is ugly, nothing is lost)
+    levels = {"warning": 1, "warn": 1, "error": 1, "critical": 1, "exception": 1, "log": 2}
     n = 0
     for m in [None]:
         for f in repo.all_functions():
